@@ -20,6 +20,11 @@ CHECKS = {
     text="TLC explores every chain of operator kinds (positional, broadcast, shifted, wide, partition-filtered) x selection and checks that pushing the selection one operator down commutes; those abstract cases are made concrete on every kind of source and each selection's result is validated by TLC against the selection computed from the partitions of the same collection lowered without optimization (first-n-of-first-k / last-n-of-last for head/tail, no new error). Model checking suits the rule (small finite chain/selection space); the binding is trace validation of observed partitions.",
     note="Trusted: TLC, pandas equality of row representations (rows numbered by index label + values), the unoptimized lowering as reference. Row order inside partitions is not compared below disk shuffles / joins. Known finding F20 (selection above a fused multi-file read) is suppressed only for cases flagged fused_io_under_selection.",
     design="5.2 C11"),
+ "C01": dict(
+    technique="TLA+ state machine of the query program space (QueryGen) enumerated/simulated by TLC; each program replayed through the real API; results of every optimizer stage trace-validated by TLC against the unoptimized lowering under the spec's order/index-definedness rules",
+    text="TLC enumerates well-typed DataFrame programs (all up to depth 1, a seeded sample of depth 2, simulated behaviours up to depth 4-5) from the QueryGen specification, which also derives where row order and index labels are defined. Every program is built through the public API on seeded tables with NULLs and duplicate keys under two partition layouts (known divisions / unknown divisions with an empty partition) and executed unoptimized, at optimizer stages and through compute(); TLC validates each observation against the unoptimized reference with the acceptance relation of spec/Rel.tla (no new error, same schema, same rows as sequence or bag, sortedness of top-level sorts).",
+    note="Trusted: TLC; the unoptimized lowering as reference; pandas objects' values encoded to integers (non-integral results scaled by 1000). Bounded/sampled program space (operators of spec/QueryGen.tla only; depth <= 5); numeric columns only in this tier.",
+    design="5.0 C01"),
 }
 
 def main():
